@@ -634,6 +634,23 @@ def _snap(S, spec, dim):
 def _apply_edit(S, op):
     """["add", members] -> add_simplex; ["remove", members] -> remove_simplex_id of the simplex with these members
     (a recipe that no longer has it - after shrinking - skips the step)"""
+    if op[0] == "swapids":
+        # the two simplices (given by their members) exchange their IDs: both are removed (with the simplices containing
+        # them) and everything removed is added again, smaller simplices first, under the same IDs except that the two are
+        # exchanged — the set of IDs, of member sets, all counts stay the same; only which ID names which simplex changes
+        tab = S.edges.members(dtype=dict)
+        fa, fb = (frozenset(tuple(x) if isinstance(x, list) else x for x in m) for m in op[1])
+        a = next((e for e, m in tab.items() if m == fa), None)
+        b = next((e for e, m in tab.items() if m == fb), None)
+        if a is None or b is None or a == b:
+            return False
+        S.remove_simplex_ids_from([e for e in (a, b) if e in S.edges])
+        if b in S.edges:
+            S.remove_simplex_id(b)
+        gone = [e for e in tab if e not in S.edges]
+        for e in sorted(gone, key=lambda e: len(tab[e])):
+            S.add_simplex(list(tab[e]), idx=b if e == a else a if e == b else e)
+        return True
     kind, ms = op[0], [tuple(x) if isinstance(x, list) else x for x in op[1]]
     if kind == "add":
         S.add_simplex(list(ms))
@@ -728,6 +745,11 @@ def gen_held(rng):
                 stages.append([["remove", old], ["add", new]])
                 T = U
                 break
+        pairs = [ms for ms in orientable if len(ms) == 2 and frozenset(ms) in set(map(frozenset, T.edges.members()))]
+        if len(pairs) >= 2 and rec["ids"] is not None:
+            two = rng.sample(pairs, 2)
+            stages.append([["swapids", two]])
+            _apply_edit(T, ["swapids", two])
         stages.append([["add", rng.sample(nodes, rng.randint(2, min(4, len(nodes))))]])
         mx = list(T.edges.maximal())
         if mx:
